@@ -48,6 +48,8 @@ def run(repo, rep):
              'syntax; the provider gets the same table; _loop serves a message only on a context it accepted', 2)
     rep.rule('C09.N6', 'the routing / accepted-context tables are per-association objects: what one association accepted is '
              'never served on another', 1)
+    rep.rule('C09.N7', 'the set of supported transfer syntaxes the acceptor consults is exactly the configured one: the default '
+             'set is substituted only when none was configured (None), never for an empty configuration', 1)
     rep.rule('C09.N5', 'the reply repeats the request\'s AE titles (same-named fields) and application context item; user '
              'information is appended last', 1)
 
@@ -227,3 +229,30 @@ def run(repo, rep):
     p6 = per_instance_problems(repo, acc_cls)
     rep.check(not p6, 'C09.N6', 'asceprovider:AssociationAcceptor:tables-per-association', acc_cls.loc(),
               'routing / accepted-context tables are created per association', '; '.join(p6))
+
+    # ---------------------------------------------------------------- N7: what "supported" means
+    aeb = repo.cls('applicationentity', 'AEBase')
+    ai = aeb.find_method('__init__')
+    rep.analysed(ai)
+    ic = SymClient(repo, ai, event_of=lambda *a: None, hierarchy=hier)
+    io = ic.run(empty_state())
+    p7 = []
+    tsp = next((p_ for p_ in ai.params if 'ts' in p_ or 'syntax' in p_), None)
+    n7 = 0
+    for s_ in [x for x, _r in io.ret] + list(io.fall):
+        v = s_.field('EXT:self', 'supported_ts')
+        if v is None or tsp is None:
+            p7.append('supported_ts is not set from a constructor parameter')
+            continue
+        n7 += 1
+        is_none = ('+%s is None' % tsp) in s_.conds or ('-%s is not None' % tsp) in s_.conds
+        not_none = ('-%s is None' % tsp) in s_.conds or ('+%s is not None' % tsp) in s_.conds
+        if not_none and v not in ('frozenset(%s)' % tsp, 'set(%s)' % tsp, tsp):
+            p7.append('with a configured set the acceptor consults %s' % v)
+        elif is_none and tsp in v.replace('self.default_ts', ''):
+            p7.append('with no configuration the acceptor consults %s' % v)
+        elif not is_none and not not_none:
+            p7.append('supported_ts = %s is not decided by "is None": an explicitly empty configuration is replaced by the '
+                      'defaults (or a falsy one treated as absent)' % v)
+    rep.check(not p7, 'C09.N7', 'applicationentity:AEBase.__init__:supported-ts', ai.loc(), 'configured set used as is (%d paths)' % n7,
+              '; '.join(sorted(set(p7))))
